@@ -24,15 +24,13 @@ HEADER = ("From Coq Require Import ZArith List Bool.\nFrom TFV Require Import St
 
 KEYS = ["a", "b", "c", "d", "e", "f", "g", "h"]
 
-# findings proposed for KNOWN_FINDINGS.json (this builder may not edit that file).  While an entry is not
+# finding proposed for KNOWN_FINDINGS.json (this builder may not edit that file).  While it is not
 # listed there the check prints the KNOWN-FINDING line itself; once listed (status open, same
 # site+fingerprint) it goes through common.finish like every other finding.
-F12 = {"site": "tf_pwa/data.py data_generator (tuple branch)", "fingerprint": "empty_tuple_yields_nothing",
-       "what": "data_split of a structure containing an EMPTY TUPLE yields no batch at all (empty dict/list are special-cased, "
-               "tuple is not): data_split({'a': array(6), 't': ()}, 2) -> 0 pieces, the sample vanishes"}
-F13 = {"site": "tf_pwa/data.py data_generator MAX_ITER", "fingerprint": "max_iter_truncates_batches",
-       "what": "with an empty dict/list anywhere in the data, data_split stops after MAX_ITER=1000 batches: 1003 rows, "
-               "batch_size 1 -> 1000 pieces, rows 1000.. are silently dropped"}
+F14 = {"site": "tf_pwa/data.py LazyCall.__iter__", "fingerprint": "lazy_empty_extra_max_iter",
+       "what": "LazyCall.__iter__ splits self.extra on its own; an empty extra ({}) holds no array, so it yields only MAX_ITER=1000 "
+               "copies and zip() ends the iteration there: LazyCall(f, {'a': arange(1003)}).as_dataset(1) -> 1000 batches, "
+               "batch_call on it returns 1000 of 1003 rows"}
 PENDING = []
 
 
@@ -58,8 +56,6 @@ class Gen:
             return self.leaf(n, allow2d and self.rnd.random() < 0.25, start)
         kind = self.rnd.choice(["dict", "dict", "list", "tuple"] if tuples else ["dict", "dict", "list"])
         m = self.rnd.randrange(0 if empties else 1, 4)
-        if kind == "tuple" and m == 0:
-            m = 1  # an empty tuple yields no batch at all: exercised by dedicated cases
         kids = [self.tree(n, depth - 1, allow2d, empties, tuples, start, False) for _ in range(m)]
         if kind == "dict":
             ks = sorted(self.rnd.sample(KEYS, m))
@@ -179,7 +175,7 @@ def tree_cases(ctx, rnd, np, ntrees, direct):
         except Exception as ex:  # the implementation raised on a legitimate input
             direct.append({"test": "tf_pwa.data helpers on a nested structure raised %s: %s" % (type(ex).__name__, str(ex)[:200]),
                            "n": n, "struct": repr(D.data_struct(d))})
-    tree_edge_cases(ctx, np, D, g, cases)
+    tree_edge_cases(ctx, np, D, g, cases, direct)
     return cases
 
 
@@ -199,7 +195,7 @@ def tree_case_one(ctx, rnd, np, D, g, ti, n, d, cases, direct):
             pieces = list(D.data_split(d, b))
             ctx.count("batch=%s" % ("1" if b == 1 else ">n" if b > n else "divides" if n % b == 0 else "non-dividing"))
             cid = "split_t%d_b%d" % (ti, b)
-            cases.append((cid, "list_eqb data_eqb (gen 1000 %d %s) [%s] = true" % (b, D_, ";".join(enc(p) for p in pieces)),
+            cases.append((cid, "list_eqb data_eqb (data_split 1000 %d %s) [%s] = true" % (b, D_, ";".join(enc(p) for p in pieces)),
                           {"op": "data_split", "tree": ti, "n": n, "batch": b, "struct": repr(D.data_struct(d))}))
             if pieces and len(pieces) < 200:
                 ctx.distinct.add(("split", ti, b))
@@ -285,24 +281,28 @@ def tree_case_one(ctx, rnd, np, D, g, ti, n, d, cases, direct):
     return
 
 
-def tree_edge_cases(ctx, np, D, g, cases):
-    e1 = {"e": {}, "f": [[], {}]}
+def tree_edge_cases(ctx, np, D, g, cases, direct):
+    e1 = {"e": {}, "f": [[], {}], "t": ()}
     ps = list(D.data_split(e1, 5))
-    cases.append(("split_noleaf", "list_eqb data_eqb (gen 1000 5 %s) [%s] = true" % (enc(e1), ";".join(enc(p) for p in ps)),
+    cases.append(("split_noleaf", "list_eqb data_eqb (data_split 1000 5 %s) [%s] = true" % (enc(e1), ";".join(enc(p) for p in ps)),
                   {"op": "data_split of a structure without arrays", "pieces": len(ps)}))
     ctx.notes.append("observation F10: a structure with no array at all splits into %d empty pieces" % len(ps))
-    e2 = {"a": g.leaf(6), "t": ()}
-    ps = list(D.data_split(e2, 2))
-    cases.append(("split_emptytuple", "list_eqb data_eqb (gen 1000 2 %s) [%s] = true" % (enc(e2), ";".join(enc(p) for p in ps)),
-                  {"op": "data_split with an empty tuple inside", "pieces": len(ps)}))
-    if len(ps) != 3:
-        PENDING.append((F12, {"test": "data_merge(*data_split(d, 2)) == d", "d": "{'a': arange(6), 't': ()}", "pieces": len(ps)}))
-    e3 = {"a": g.leaf(1003), "e": {}}
-    ps = list(D.data_split(e3, 1))
-    cases.append(("split_maxiter", "list_eqb data_eqb (gen 1000 1 %s) [%s] = true" % (enc(e3), ";".join(enc(p) for p in ps)),
-                  {"op": "data_split with > MAX_ITER batches and an empty container", "pieces": len(ps)}))
-    if len(ps) != 1003:
-        PENDING.append((F13, {"test": "data_merge(*data_split(d, 1)) == d", "d": "{'a': arange(1003), 'e': {}}", "pieces": len(ps)}))
+    # structures that lost data before 8ca0a85 / 6a76cf5: empty tuples, > MAX_ITER batches next to empty containers
+    edge = [
+        ("emptytuple", {"a": g.leaf(6), "t": ()}, 2),
+        ("emptytuple2", ({"a": g.leaf(5, True)}, (), [(), {"b": ()}]), 3),
+        ("maxiter", {"a": g.leaf(1003), "e": {}}, 1),
+        ("maxiter2", [g.leaf(2005), [], {"t": ()}], 2),
+    ]
+    for name, d, b in edge:
+        ps = list(D.data_split(d, b))
+        ctx.evaluations += 1
+        ctx.count("edge_" + name)
+        cases.append(("split_" + name, "list_eqb data_eqb (data_split 1000 %d %s) [%s] = true" % (b, enc(d), ";".join(enc(p) for p in ps)),
+                      {"op": "data_split", "case": name, "batch": b, "struct": repr(D.data_struct(d)), "pieces": len(ps)}))
+        ok = bool(ps) and struct_eq(D.data_merge(*ps), d)
+        if not ok:
+            direct.append({"test": "data_merge(*data_split(d, b)) == d", "batch": b, "struct": repr(D.data_struct(d)), "pieces": len(ps)})
     try:
         D.data_merge()
         oc = "false"
@@ -474,6 +474,23 @@ def lazy_cases(ctx, rnd, np, nlazy, direct):
 
     cases = []
     g = Gen(rnd, np)
+    # more than MAX_ITER batches: with and without extra entries
+    for tag, with_extra in (("x", True), ("n", False)):
+        x = {"a": g.leaf(1003)}
+        lz = D.LazyCall(lambda d: {k: 2 * v + 1 for k, v in d.items()}, x)
+        extra = {"w": g.leaf(1003)} if with_extra else {}
+        for k, v in extra.items():
+            lz[k] = v
+        pieces = [D.data_to_numpy(p) for p in lz.as_dataset(1)]
+        cases.append(("lazybig_%s" % tag, "list_eqb data_eqb (lazy_batches (map_leaves (affine 2%%Z 1%%Z)) 1000 1 %s %s) [%s] = true" % (enc(x), enc(extra), ";".join(enc(p) for p in pieces)),
+                      {"op": "LazyCall iteration, 1003 batches", "extra": sorted(extra), "pieces": len(pieces)}))
+        ctx.evaluations += 1
+        if not struct_eq(D.data_merge(*pieces), D.data_to_numpy(lz.eval())):
+            inp = {"test": "data_merge(*LazyCall.as_dataset(1)) == LazyCall.eval()", "n": 1003, "extra": sorted(extra), "pieces": len(pieces)}
+            if with_extra:
+                direct.append(inp)
+            else:
+                PENDING.append((F14, inp))
     for li in range(nlazy):
         n = rnd.choice([1, 2, 5, 9, rnd.randrange(1, 51)])
         a, c = rnd.randrange(1, 5), rnd.randrange(-3, 4)
@@ -560,7 +577,8 @@ def run(ctx):
                  site="tf_pwa.data", fingerprint="direct", failing_input=d)
     return common.finish(ctx, search=search, technique=TECHNIQUE, extra_assumptions=[
         "NumPy text / npy / npz / pickle I/O and tf.data are runtime: exercised and compared exactly, not modelled",
-        "merge o split = id needs: every array has the same number n > 0 of rows, no empty tuple inside, and (number of batches <= MAX_ITER=1000 or no empty container)",
+        "merge o split = id needs: every array has the same number n > 0 of rows; sys.maxsize is represented in the model by the total batch count of the arrays (theorem C18_bound_irrelevant)",
+        "lazy = eager is proved for a LazyCall without extra entries and at most MAX_ITER batches (refuted beyond: finding F14)",
         "data_merge is modelled for pieces with identical key sequences (what data_split yields); its error cases are not modelled",
     ])
 
